@@ -17,6 +17,18 @@ import types
 VERIF = os.path.dirname(os.path.dirname(os.path.abspath(__file__)))
 REPO = os.environ.get('VERIF_REPO', '/repo')
 COQ = os.path.join(VERIF, 'coq')
+# case files of this process (two runs of a check never share a file); removed at exit unless VERIF_KEEP_CASES=1
+CASES = os.path.join(COQ, 'Cases', f"p{os.getpid()}")
+
+
+def _drop_cases():
+    if os.environ.get('VERIF_KEEP_CASES') != '1':
+        import shutil as _sh
+        _sh.rmtree(CASES, ignore_errors=True)
+
+
+import atexit as _atexit
+_atexit.register(_drop_cases)
 PY = '/venv/bin/python'
 sys.path.insert(0, os.path.join(VERIF, 'tools'))
 
@@ -267,7 +279,7 @@ def hygiene(files):
 def run_cases(name, imports, streams, timeout=600):
     """streams: list of (label, coq type of a case, [case terms], check lambda `fun c => bool`).
     Returns {label: [failing indices]} or raises on coqc failure.  Splits big streams into several files."""
-    os.makedirs(os.path.join(COQ, 'Cases'), exist_ok=True)
+    os.makedirs(CASES, exist_ok=True)
     results = {}
     CH = 3000
     jobs = []
@@ -276,7 +288,7 @@ def run_cases(name, imports, streams, timeout=600):
             jobs.append((label, ty, cases[off:off + CH], chk, off))
     procs = []
     for k, (label, ty, cases, chk, off) in enumerate(jobs):
-        fn = os.path.join(COQ, 'Cases', f"{name}_{k}.v")
+        fn = os.path.join(CASES, f"{name}_{k}.v")
         with open(fn, 'w') as f:
             f.write("From EO Require Import Prelude.Py Prelude.Corr.\n" + imports + "\nOpen Scope Z_scope.\n")
             f.write(f"Definition cases : list ({ty}) :=\n  [" + ";\n   ".join(cases) + "].\n")
@@ -427,7 +439,7 @@ class Check:
         thms = re.findall(r'^Theorem\s+([A-Za-z_0-9\']+)', txt, flags=re.M)
         mod = prop_file[:-2].replace('/', '.')
         script = f"From EO Require Import {mod}.\n" + ''.join(f"Print Assumptions {t}.\n" for t in thms)
-        fn = os.path.join(COQ, 'Cases', f"pa_{self.pid}.v")
+        fn = os.path.join(CASES, f"pa_{self.pid}.v")
         os.makedirs(os.path.dirname(fn), exist_ok=True)
         open(fn, 'w').write(script)
         rc, out = sh(['timeout', '300', 'coqc', '-Q', COQ, 'EO', '-w', '-all', fn], cwd=COQ)
